@@ -296,7 +296,8 @@ class VolumeSubdivision(Logger):
         pcenter = sum([Vec(self.mesh.vertices[a]) for a in f ])/3 # barycenter
         self.mesh.vertices.append(pcenter)
         
-        for c in self.conn.face_to_cells(face_id):
+        fset = set(f)
+        for c in [_c for _c in self.mesh.id_cells if fset.issubset(self.mesh.cells[_c])]: # adjacent cells in the data as edited so far
             iF = self.conn.in_cell_face_index(c,face_id)
             new_cells = []
             for i in range(4):
